@@ -3669,3 +3669,64 @@ func ruleOperandSet(prog *Program, rep *Report, floor int, rels ...string) {
 	rep.Rules = append(rep.Rules, "M-operandset: in a loop that rewrites the elements of a slice by kind (type switch with at least five clauses that assign S[i]) every clause that assigns S[i] assigns it on every path that falls out of the clause ("+strings.Join(rels, ", ")+")")
 	runSynRule(prog, rep, "M-operandset", rels, matchOperandSet, fixtureOperandSet, 1, floor)
 }
+
+// ---------------------------------------------------------------- K-slicearray
+
+// matchSliceArray: in the JSONPath evaluators a reflected Go array is walked wherever a reflected slice is
+// (95 of 95 case clauses over reflect kinds on the pinned tree list both or neither). A clause that lists
+// reflect.Slice without reflect.Array (or the reverse) makes one evaluator stop at arrays that the others enter.
+func matchSliceArray(files []*ast.File, info *types.Info) (sites []synSite, examined int) {
+	for _, f := range files {
+		ast.Inspect(f, func(n ast.Node) bool {
+			cc, ok := n.(*ast.CaseClause)
+			if !ok || len(cc.List) < 2 {
+				return true
+			}
+			have := map[string]bool{}
+			for _, e := range cc.List {
+				if sel, ok := ast.Unparen(e).(*ast.SelectorExpr); ok {
+					if c, ok := info.Uses[sel.Sel].(*types.Const); ok && c.Pkg() != nil && c.Pkg().Path() == "reflect" {
+						have[c.Name()] = true
+					}
+				}
+			}
+			if !have["Slice"] && !have["Array"] {
+				return true
+			}
+			examined++
+			if have["Slice"] != have["Array"] {
+				missing := "Array"
+				if have["Array"] {
+					missing = "Slice"
+				}
+				name := enclosingFuncName(f, cc.Pos())
+				sites = append(sites, synSite{pos: cc.Pos(), file: f, key: fmt.Sprintf("%s:kinds-without-%s", name, missing),
+					msg: fmt.Sprintf("%s: a case clause over reflect kinds lists one of Slice / Array without reflect.%s: values of that kind are not entered here although every other evaluator enters them", name, missing)})
+			}
+			return true
+		})
+	}
+	return
+}
+
+const fixtureSliceArray = `package fixture
+
+import "reflect"
+
+func enter(k reflect.Kind) bool {
+	switch k {
+	case reflect.Ptr, reflect.Slice, reflect.Struct, reflect.Map:
+		return true
+	}
+	switch k {
+	case reflect.Array, reflect.Slice:
+		return true
+	}
+	return false
+}
+`
+
+func ruleSliceArray(prog *Program, rep *Report, floor int, rels ...string) {
+	rep.Rules = append(rep.Rules, "K-slicearray: every case clause over reflect kinds that lists reflect.Slice lists reflect.Array too, and the reverse ("+strings.Join(rels, ", ")+")")
+	runSynRule(prog, rep, "K-slicearray", rels, matchSliceArray, fixtureSliceArray, 1, floor)
+}
